@@ -387,6 +387,8 @@ func TestVerifC16(t *testing.T) {
 			c.Bubble("", func() { runC16Cache(c) })
 		case 8:
 			c.Bubble("", func() { runC16Case(c) })
+		case 6:
+			c.Bubble("", func() { runC16Edge(c) })
 		default:
 			c.Bubble("", func() { runC16(c) })
 		}
@@ -781,4 +783,148 @@ func runC16Case(c *vh.Case) {
 	}
 	c.Count("calls", len(cases))
 	c.Nontrivial(fmt.Sprintf("case:%d", big))
+}
+
+
+// ---- edge shapes: arguments that are not a JSON object, and pointer output types whose handler returns nil
+
+type c16EdgeIn struct {
+	Limit int    `json:"limit,omitempty"`
+	Path  string `json:"path,omitempty"`
+}
+
+type c16EdgeOut struct {
+	Status string `json:"status"`
+	Count  int    `json:"count"`
+}
+
+func runC16Edge(c *vh.Case) {
+	r := c.R
+	ctx := context.Background()
+	var mu sync.Mutex
+	invoked := map[string]int{}
+	var next *c16EdgeOut
+	server := mcp.NewServer(&mcp.Implementation{Name: "s", Version: "1"}, nil)
+	// no required property: the empty object is valid, which is what makes a silently substituted {} dangerous
+	mcp.AddTool(server, &mcp.Tool{Name: "opt"}, func(ctx context.Context, req *mcp.CallToolRequest, a c16EdgeIn) (*mcp.CallToolResult, any, error) {
+		mu.Lock()
+		invoked["opt"]++
+		mu.Unlock()
+		return nil, nil, nil
+	})
+	withDefault := r.Bool()
+	outSchema := map[string]any{"type": "object", "required": []any{"status", "count"}, "properties": map[string]any{
+		"status": map[string]any{"type": "string", "enum": []any{"ok", "failed"}}, "count": map[string]any{"type": "integer", "minimum": 1}}}
+	if withDefault {
+		outSchema["properties"].(map[string]any)["note"] = map[string]any{"type": "string", "default": "n/a"}
+	}
+	mcp.AddTool(server, &mcp.Tool{Name: "ptr", OutputSchema: outSchema}, func(ctx context.Context, req *mcp.CallToolRequest, a c16EdgeIn) (*mcp.CallToolResult, *c16EdgeOut, error) {
+		mu.Lock()
+		defer mu.Unlock()
+		invoked["ptr"]++
+		return nil, next, nil
+	})
+	client := mcp.NewClient(&mcp.Implementation{Name: "c", Version: "1"}, nil)
+	pair, err := vhm.Connect(ctx, vhm.PairOpts{Kind: "mem", Server: server, Client: client, ClientVersion: r.Choose("2025-06-18", "2025-11-25", "")})
+	if err != nil {
+		c.Inconclusive("connect: %v", err)
+		return
+	}
+	cs := pair.CS
+	var calls []any
+	defer func() {
+		c.SetSpec(map[string]any{"gen": "edge", "output_default": withDefault, "calls": calls})
+		cs.Close()
+		pair.SS.Wait()
+		time.Sleep(11 * time.Second)
+	}()
+	rejected, accepted := 0, 0
+	for k, n := 0, r.Range(3, 8); k < n && !c.Violated(); k++ {
+		if r.Bool() {
+			// arguments of every JSON kind; only an object (or absent arguments) can be valid
+			var args any
+			kind := r.Choose("array", "string", "number", "bool", "object", "object-bad", "absent", "nested-array")
+			switch kind {
+			case "array":
+				args = []any{1, 2, 3}
+			case "nested-array":
+				args = []any{map[string]any{"limit": 3}}
+			case "string":
+				args = "limit=3"
+			case "number":
+				args = 42
+			case "bool":
+				args = true
+			case "object":
+				args = map[string]any{"limit": r.Range(0, 9)}
+			case "object-bad":
+				args = map[string]any{"limit": "three"}
+			case "absent":
+				args = nil
+			}
+			calls = append(calls, map[string]any{"tool": "opt", "arguments_kind": kind, "arguments": args})
+			mu.Lock()
+			invoked["opt"] = 0
+			mu.Unlock()
+			res, err := cs.CallTool(ctx, &mcp.CallToolParams{Name: "opt", Arguments: args})
+			mu.Lock()
+			n := invoked["opt"]
+			mu.Unlock()
+			valid := kind == "object" || kind == "absent"
+			switch {
+			case valid && (n != 1 || err != nil || res.IsError):
+				c.Violate("valid-input-rejected", "tool opt, arguments %s (%s): handler ran %d time(s), err %v result %s", vh.JSON(args), kind, n, err, vh.JSON(res))
+			case !valid && n != 0:
+				c.Violate("handler-saw-invalid-input", "tool opt declares an object input; arguments %s (%s) are not valid, yet the handler ran", vh.JSON(args), kind)
+			case !valid && err == nil && !res.IsError:
+				c.Violate("invalid-input-accepted", "arguments %s (%s) produced a non-error result %s", vh.JSON(args), kind, vh.JSON(res))
+			}
+			if valid {
+				accepted++
+			} else {
+				rejected++
+			}
+			continue
+		}
+		kind := r.Choose("nil", "nil", "valid", "bad-enum", "bad-min", "zero")
+		mu.Lock()
+		switch kind {
+		case "nil":
+			next = nil
+		case "valid":
+			next = &c16EdgeOut{Status: r.Choose("ok", "failed"), Count: r.Range(1, 50)}
+		case "bad-enum":
+			next = &c16EdgeOut{Status: "maybe", Count: 3}
+		case "bad-min":
+			next = &c16EdgeOut{Status: "ok", Count: 0}
+		case "zero":
+			next = &c16EdgeOut{}
+		}
+		mu.Unlock()
+		calls = append(calls, map[string]any{"tool": "ptr", "handler_output": kind})
+		res, err := cs.CallTool(ctx, &mcp.CallToolParams{Name: "ptr", Arguments: map[string]any{}})
+		if kind == "valid" {
+			accepted++
+			if err != nil || res.IsError {
+				c.Violate("valid-output-rejected", "handler returned a valid *Out, the call failed: %v %s", err, vh.JSON(res))
+			}
+			continue
+		}
+		rejected++
+		// whatever the SDK makes of a nil/zero/invalid output: a successful result must carry schema-valid structured content
+		if err == nil && !res.IsError {
+			b, _ := json.Marshal(res.StructuredContent)
+			var m map[string]any
+			json.Unmarshal(b, &m)
+			st, _ := m["status"].(string)
+			cnt, _ := m["count"].(float64)
+			if m == nil || (st != "ok" && st != "failed") || cnt < 1 {
+				c.Violate("invalid-output-returned", "handler output %q: the successful result carries structured content %s, which violates the output schema (status in {ok,failed}, count >= 1)", kind, b)
+			}
+		}
+	}
+	c.Count("edge_calls", len(calls))
+	if accepted >= 1 && rejected >= 1 {
+		c.Nontrivial("edge:" + vh.JSON(calls))
+	}
 }
